@@ -550,3 +550,147 @@ def probe_c01_steps(ctx, pf):
         ctx.violation("c01:upwind_periodic", "upwind advection across a periodic boundary with non-zero normal velocity does not conserve domainIntegral",
                       {"cls": "Grid1D", "faces": [[0, 1, 2, 3]], "u": 1.0, "phi_interior": [1, 2, 4], "dt": 0.5, "before": I0, "after": float(x.domainIntegral())})
     return n
+
+
+# ------------------------------------------------------------------ C11
+def probe_c11(ctx, pf):
+    n = 0
+    for rng, cname, fs, mesh in cases(ctx, pf, "c11", reps_q=4, reps_t=30):
+        d = len(mesh.dims)
+        shape = full_shape(mesh)
+        pos = np.abs(gen.cell_array(rng, mesh, p0=0.0)) + 0.25
+        phi = pf.CellVariable(mesh, pos)
+        cs = [mesh.cellsize._x, mesh.cellsize._y, mesh.cellsize._z]
+        L = lab(cname, fs, phi_with_ghosts=pos)
+        with np.errstate(all="ignore"):
+            means = {k: getattr(pf, k)(phi) for k in ("linearMean", "arithmeticMean", "geometricMean", "harmonicMean")}
+        for ax in range(d):
+            lo = tuple(slice(0, -1) if i == ax else slice(1, -1) for i in range(d))
+            hi = tuple(slice(1, None) if i == ax else slice(1, -1) for i in range(d))
+            a, b = pos[lo], pos[hi]
+            mn, mx = np.minimum(a, b), np.maximum(a, b)
+            vals = {k: [v._xvalue, v._yvalue, v._zvalue][ax] for k, v in means.items()}
+            for k, v in vals.items():
+                n += 1
+                if v.shape != a.shape or not np.all(np.isfinite(v)) or np.any(v < mn * (1 - 1e-12)) or np.any(v > mx * (1 + 1e-12)):
+                    ctx.violation(f"c11:{cname}:{k}:between", f"{cname}: {k} is not between the two adjacent cell values (axis {ax})", dict(L, axis=ax))
+            n += 1
+            if np.any(vals["harmonicMean"] > vals["geometricMean"] * (1 + 1e-12)) or np.any(vals["geometricMean"] > vals["arithmeticMean"] * (1 + 1e-12)):
+                ctx.violation(f"c11:{cname}:HGA", f"{cname}: harmonic <= geometric <= arithmetic violated (axis {ax})", dict(L, axis=ax))
+            # geometric mean closed form with the same width weights
+            sh = [1] * d; sh[ax] = -1
+            w = cs[ax].reshape(sh)
+            w1 = w[tuple(slice(0, -1) if i == ax else slice(None) for i in range(d))]
+            w2 = w[tuple(slice(1, None) if i == ax else slice(None) for i in range(d))]
+            g = np.exp((w1 * np.log(a) + w2 * np.log(b)) / (w1 + w2))
+            if rel(vals["geometricMean"], g) > 1e-12:
+                ctx.violation(f"c11:{cname}:geometric", f"{cname}: geometricMean is not exp of the width-weighted mean of logs (axis {ax})", dict(L, axis=ax))
+        # constants reproduced; zeros handled identically in every dimension
+        cst = pf.CellVariable(mesh, np.full(shape, 2.5))
+        for k in ("linearMean", "arithmeticMean", "geometricMean", "harmonicMean"):
+            v = getattr(pf, k)(cst)
+            n += 1
+            for comp in (v._xvalue, v._yvalue, v._zvalue)[:d]:
+                if not np.allclose(comp, 2.5, rtol=1e-13, atol=0):
+                    ctx.violation(f"c11:{cname}:{k}:const", f"{cname}: {k} does not reproduce a constant field", L)
+        z = pos.copy()
+        z[tuple(rng.randrange(s) for s in shape)] = 0.0
+        z[tuple(slice(None) if i else slice(0, 2) for i in range(d))] = 0.0     # two adjacent zeros along x
+        zv = pf.CellVariable(mesh, z)
+        with np.errstate(all="ignore"):
+            for k in ("harmonicMean", "geometricMean"):
+                v = getattr(pf, k)(zv)
+                n += 1
+                for ax, comp in enumerate((v._xvalue, v._yvalue, v._zvalue)[:d]):
+                    lo = tuple(slice(0, -1) if i == ax else slice(1, -1) for i in range(d))
+                    hi = tuple(slice(1, None) if i == ax else slice(1, -1) for i in range(d))
+                    zero_face = (z[lo] == 0) | (z[hi] == 0)
+                    if not np.all(np.isfinite(comp)) or np.any(comp[zero_face] != 0):
+                        ctx.violation(f"c11:{cname}:{k}:zeros", f"{cname}: {k} with exact zeros in the data is not 0 / not finite on the affected faces (axis {ax})",
+                                      dict(L, phi_with_ghosts=z, axis=ax))
+        # linear fields reproduced at the face positions (Cartesian interpretation of each axis)
+        for ax in range(d):
+            f = np.asarray(fs[ax]); c = 0.5 * (f[1:] + f[:-1])
+            cg = np.hstack([f[0] - 0.5 * (f[1] - f[0]), c, f[-1] + 0.5 * (f[-1] - f[-2])])
+            sh = [1] * d; sh[ax] = -1
+            lin = np.broadcast_to(1.5 + 0.75 * cg.reshape(sh), shape).copy()
+            v = pf.linearMean(pf.CellVariable(mesh, lin))
+            comp = (v._xvalue, v._yvalue, v._zvalue)[ax]
+            want = np.broadcast_to(1.5 + 0.75 * f.reshape(sh), comp.shape)
+            n += 1
+            if rel(comp, want) > 1e-12:
+                ctx.violation(f"c11:{cname}:linear-exact", f"{cname}: linearMean does not reproduce a linear field at the faces of axis {ax}", dict(L, axis=ax))
+    return n
+
+
+# ------------------------------------------------------------------ C17
+LENGTHLIKE = {k: [x != "ang" and x != "pol" for x in v] for k, v in gen.AXKIND.items()}
+
+
+def probe_c17(ctx, pf):
+    from suites.bcsuite import set_random_bcs, bc_label
+    n = 0
+    for rng, cname, fs, mesh in cases(ctx, pf, "c17", reps_q=3, reps_t=20):
+        d = len(mesh.dims)
+        Lc = 10.0 ** rng.randint(-6, 6); Tc = 10.0 ** rng.randint(-6, 6); Kc = 10.0 ** rng.randint(-6, 6)
+        fs2 = [np.asarray(f) * (Lc if LENGTHLIKE[cname][a] else 1.0) for a, f in enumerate(fs)]
+        mesh2 = gen.build_mesh(pf, cname, fs2)
+        BC, desc, per = set_random_bcs(rng, mesh, cname)
+        BC2 = pf.BoundaryConditions(mesh2)
+        for ax in range(d):
+            for side in SIDES[ax]:
+                f1, f2 = getattr(BC, side), getattr(BC2, side)
+                f2.a[:] = np.asarray(f1.a) * Lc; f2.b[:] = np.asarray(f1.b); f2.c[:] = np.asarray(f1.c) * Kc
+                f2.periodic = f1.periodic
+        inner = gen.cell_array(rng, mesh)[interior_slices(d)]
+        Da = gen.face_arrays(rng, mesh, lo=0.0, hi=2.0); ua = gen.face_arrays(rng, mesh, lo=-1.0, hi=1.0)
+        be = np.abs(gen.cell_array(rng, mesh))[interior_slices(d)]; ga = gen.cell_array(rng, mesh)[interior_slices(d)]
+        flname = rng.choice(["SUPERBEE", "Koren", "VanLeer", "MinMod"])
+        L = lab(cname, fs, bc=bc_label(BC, d), kinds=desc, phi_interior=inner, D=Da, u=ua, beta=be, gamma=ga, L=Lc, T=Tc, K=Kc, limiter=flname)
+        def run(mesh_, BC_, l, t, k):
+            phi = pf.CellVariable(mesh_, inner * k, BC_)
+            D = pf.FaceVariable(mesh_, *[a * l * l / t for a in Da]); u = pf.FaceVariable(mesh_, *[a * l / t for a in ua])
+            beta = pf.CellVariable(mesh_, be / t); gamma = pf.CellVariable(mesh_, ga * k / t)
+            FL = pf.fluxLimiter(flname)
+            out = []
+            for step in range(2):
+                terms = [pf.transientTerm(phi, 0.25 * t, 1.0), -pf.diffusionTerm(D), pf.convectionUpwindTerm(u),
+                         pf.convectionTVDupwindRHSTerm(u, phi, FL), pf.linearSourceTerm(beta), pf.constantSourceTerm(gamma)]
+                pf.solvePDE(phi, terms)
+                out.append(np.array(phi._value))
+            phi_c = pf.CellVariable(mesh_, inner * k, BC_)
+            pf.solvePDE(phi_c, [pf.transientTerm(phi_c, 0.25 * t, 1.0), pf.convectionTerm(u), -pf.diffusionTerm(D)])
+            out.append(np.array(phi_c._value))
+            return out
+        try:
+            with np.errstate(all="ignore"):
+                r1 = run(mesh, BC, 1.0, 1.0, 1.0); r2 = run(mesh2, BC2, Lc, Tc, Kc)
+        except Exception as ex:
+            ctx.violation(f"c17:{cname}:raise", f"{cname}: {type(ex).__name__} in the rescaled problem: {ex}", L)
+            continue
+        for i, (a, b) in enumerate(zip(r1, r2)):
+            if not np.all(np.isfinite(a)) or np.max(np.abs(a)) > 1e6:
+                continue
+            n += 1
+            inner_a = a[interior_slices(d)]; inner_b = b[interior_slices(d)]
+            # TVD: _fsign's absolute threshold 1e-16 is not unit-free; only compare when all gradients are far from it
+            e = float(np.max(np.abs(inner_b / Kc - inner_a)) / (1.0 + np.max(np.abs(inner_a))))
+            if e > 1e-7:
+                ctx.violation(f"c17:{cname}:solution", f"{cname}: the solution of the rescaled problem is not K times the original (step/variant {i}, rel dev {e:.3g}, L={Lc:g}, T={Tc:g}, K={Kc:g})", dict(L, variant=i))
+                break
+        # linearity in the coefficient fields
+        D1 = pf.FaceVariable(mesh, *Da); D2 = pf.FaceVariable(mesh, *gen.face_arrays(rng, mesh, lo=0.0, hi=2.0))
+        Ds = pf.FaceVariable(mesh, *[2.5 * a + b for a, b in zip((D1._xvalue, D1._yvalue, D1._zvalue), (D2._xvalue, D2._yvalue, D2._zvalue))])
+        u1 = pf.FaceVariable(mesh, *ua); u2 = pf.FaceVariable(mesh, *gen.face_arrays(rng, mesh, lo=-1.0, hi=1.0))
+        us = pf.FaceVariable(mesh, *[2.5 * a + b for a, b in zip((u1._xvalue, u1._yvalue, u1._zvalue), (u2._xvalue, u2._yvalue, u2._zvalue))])
+        wd = pf.FaceVariable(mesh, *[np.where(a >= 0, 1.0, -1.0) if a.size else a for a in ua])
+        with np.errstate(all="ignore"):
+            checks = [("diffusionTerm", pf.diffusionTerm(Ds), 2.5 * pf.diffusionTerm(D1) + pf.diffusionTerm(D2)),
+                      ("convectionTerm", pf.convectionTerm(us), 2.5 * pf.convectionTerm(u1) + pf.convectionTerm(u2)),
+                      ("convectionUpwindTerm at fixed upwind direction", pf.convectionUpwindTerm(us, wd),
+                       2.5 * pf.convectionUpwindTerm(u1, wd) + pf.convectionUpwindTerm(u2, wd))]
+        for what, A, B in checks:
+            n += 1
+            if abs(A - B).max() > 1e-9 * (1 + abs(B).max()):
+                ctx.violation(f"c17:{cname}:linear:{what}", f"{cname}: {what} is not linear in its coefficient field", dict(L, what=what))
+    return n
